@@ -271,7 +271,7 @@ func VerifC03Agent() {
 	}
 	declared := rt.Int("ndeclaredTrailers", 0, rt.Param("trailers", 2))
 	late := rt.Int("nlateTrailers", 0, 1)
-	tnames := []string{"X-Checksum", "Grpc-Status", "X-Late"}
+	tnames := []string{"X-Checksum", "Grpc-Status", []string{"X-Late", "Trace-Id", "Te-Late"}[rt.Choice("lateName", 3)]}
 	interim := rt.Param("interim", 0) == 1 && rt.Bool("interim103")
 	rt.Known("C03-trailer-race", declared+late > 0)
 
@@ -625,3 +625,64 @@ func (b *vFailingBody) Read(p []byte) (int, error) {
 	return 0, b.err
 }
 func (b *vFailingBody) Close() error { return nil }
+
+
+// ---------------------------------------------------------------------------
+// HA-2c (C02 / C01): two requests with bodies are in flight at once; each backend
+// request carries its own body, whatever the interleaving of the two workers.
+
+func VerifC02Concurrent() {
+	prox, backend, client, hp := vSetup()
+	bodies := map[string]string{"a": "AAAAAAAA", "b": "BBBB"}
+	for id, body := range bodies {
+		prox.store(id, &http.Request{Method: "POST", URL: &url.URL{Path: "/" + id}, Host: "service.example.com", Header: http.Header{}, Body: vBody{strings.NewReader(body)},
+			ContentLength: int64(len(body)), Proto: "HTTP/1.1", ProtoMajor: 1, ProtoMinor: 1}, "user@example.com")
+	}
+	backend.respond = func(r *http.Request) (*http.Response, error) {
+		return vResponse(r, 200, nil, "echo:"+r.URL.Path), nil
+	}
+	prox.lists = [][]string{{"a", "b"}}
+	prox.listFail = []bool{false}
+	ctx, cancel := context.WithCancel(context.Background())
+	prox.afterLists = cancel
+	pollForNewRequests(ctx, client, hp, "backend-1")
+	rt.Quiesce()
+	rt.Assert(len(backend.seen) == 2, "C02.both-requests-reach-the-backend")
+	for i, r := range backend.seen {
+		id := strings.TrimPrefix(r.URL.Path, "/")
+		rt.Assert(backend.bodies[i] == bodies[id], "C02.concurrent-requests-keep-their-own-bodies")
+	}
+	for id := range bodies {
+		rt.Assert(prox.uploads[id] != nil && prox.uploadBody[id] == "echo:/"+id, "C01.concurrent-requests-get-their-own-responses")
+	}
+	rt.Cover("C02.concurrent-checked")
+}
+
+// ---------------------------------------------------------------------------
+// HU-6c (C06): when every upload attempt fails while the backend still has output,
+// the backend-facing handler is released (nothing stays blocked).
+
+func VerifC06Released() {
+	prox, backend, client, hp := vSetup()
+	prox.uploadFault["id1"] = []string{"500", "error"}[rt.Choice("uploadFailure", 2)]
+	n := rt.Int("nchunks", 1, rt.Param("chunks", 3))
+	var chunks []string
+	for i := 0; i < n; i++ {
+		chunks = append(chunks, strings.Repeat("x", []int{1, 6, 9}[rt.Choice("size"+rt.Itoa(i), 3)]))
+	}
+	backend.respond = func(r *http.Request) (*http.Response, error) {
+		return &http.Response{StatusCode: 200, Proto: "HTTP/1.1", ProtoMajor: 1, ProtoMinor: 1, Header: http.Header{}, Body: &vChunkBody{chunks: chunks}, ContentLength: -1, Request: r}, nil
+	}
+	prox.store("id1", &http.Request{Method: "GET", URL: &url.URL{Path: "/big"}, Host: "service.example.com", Header: http.Header{}, Body: http.NoBody,
+		Proto: "HTTP/1.1", ProtoMajor: 1, ProtoMinor: 1}, "user@example.com")
+	done := make(chan int, 1)
+	go func() {
+		processOneRequest(client, hp, "backend-1", "id1")
+		done <- 1
+	}()
+	blocked := rt.Quiesce()
+	rt.Assert(len(done) == 1, "C06.handler-is-released-when-all-upload-attempts-fail")
+	rt.Assert(blocked == 0, "C06.no-goroutine-left-blocked-after-failed-uploads")
+	rt.Assert(prox.uploadRaw["id1"] <= 3, "C06.at-most-three-attempts")
+	rt.Cover("C06.all-attempts-failed")
+}
